@@ -254,8 +254,9 @@ fn run_scenario(sc: &Scenario, base: &Snapshot, scratch: &Scratch, stats: &Stats
                         if !wait_until(FINISH_WAIT_MS, || verif::gate_parked().contains(&idx)).await {
                             notes.push(format!("entry {i} never reached the gate"));
                         }
-                        verif::gate_release(idx);
-                        stats.releases.fetch_add(1, Ordering::Relaxed);
+                        while verif::gate_release(idx) {
+                            stats.releases.fetch_add(1, Ordering::Relaxed);
+                        }
                         match tokio::time::timeout(Duration::from_millis(FINISH_WAIT_MS), subscription.recv()).await {
                             Ok(Ok(v)) => exec_order.push(v as i64 - base_index as i64),
                             _ => notes.push(format!("entry {i} did not complete")),
@@ -303,8 +304,9 @@ fn run_scenario(sc: &Scenario, base: &Snapshot, scratch: &Scratch, stats: &Stats
                     if !wait_until(FINISH_WAIT_MS, || verif::gate_arrived().contains(&idx)).await {
                         notes.push(format!("entry {i} never reached the gate before the restart"));
                     }
-                    verif::gate_release(idx);
-                    stats.releases.fetch_add(1, Ordering::Relaxed);
+                    while verif::gate_release(idx) {
+                        stats.releases.fetch_add(1, Ordering::Relaxed);
+                    }
                     match tokio::time::timeout(Duration::from_millis(FINISH_WAIT_MS), subscription.recv()).await {
                         Ok(Ok(v)) => exec_order.push(v as i64 - base_index as i64),
                         _ => notes.push(format!("entry {i} did not complete before the restart")),
@@ -382,6 +384,7 @@ async fn finish(
     let release_wait_ms = if sc.k <= 3 { RELEASE_WAIT_MS * 2 } else { RELEASE_WAIT_MS };
         // release in the given order; an index that is not parked (a serialising
         // implementation has not started it yet) is retried in later passes
+        let (len0, passed0) = (exec_order.len(), verif::gate_passed().len());
         let mut pending: Vec<u64> = sc.order.clone();
         if pending.iter().copied().collect::<std::collections::BTreeSet<_>>() != expect_parked.iter().copied().collect() {
             return Err(format!("release order {:?} does not match the entries to release {:?}", sc.order, expect_parked));
@@ -401,8 +404,10 @@ async fn finish(
                 continue;
             };
             let i = pending.remove(pos);
-            verif::gate_release(base_index + i);
-            stats.releases.fetch_add(1, Ordering::Relaxed);
+            // every task parked under this index (a log that holds two entries with one index starts two)
+            while verif::gate_release(base_index + i) {
+                stats.releases.fetch_add(1, Ordering::Relaxed);
+            }
             // wait for THIS entry's completion; if it does not come (it waits for a predecessor) go on
             let t = Instant::now();
             loop {
@@ -421,19 +426,35 @@ async fn finish(
                 }
             }
         }
-        // everything released: wait for the remaining completions
+        // everything released: drain. Done when every task that reached the gate has passed it and
+        // completed and at least k completions were seen; tasks that show up late under an index of
+        // the entries under test (duplicates) are released as well.
         let t = Instant::now();
-        while (exec_order.iter().filter(|i| **i >= 1).count() as u64) < k && t.elapsed() < Duration::from_millis(FINISH_WAIT_MS) {
-            if let Ok(Ok(v)) = tokio::time::timeout(Duration::from_millis(20), subscription.recv()).await {
+        loop {
+            for idx in verif::gate_parked() {
+                if idx > base_index && idx <= base_index + k {
+                    while verif::gate_release(idx) {
+                        stats.releases.fetch_add(1, Ordering::Relaxed);
+                    }
+                }
+            }
+            while let Ok(v) = subscription.try_recv() {
                 exec_order.push(v as i64 - base_index as i64);
             }
-            if pending.is_empty() && exec_order.iter().filter(|i| **i >= 1).count() as u64 >= k {
+            let arrived = verif::gate_arrived().len();
+            let passed = verif::gate_passed().len();
+            let seen = exec_order.len() - len0;
+            if passed == arrived && seen + passed0 >= arrived && exec_order.iter().filter(|i| **i >= 1).count() as u64 >= k {
+                // quiescent: give a straggler one more chance to appear
+                tokio::time::sleep(Duration::from_millis(2)).await;
+                if verif::gate_arrived().len() == arrived && subscription.is_empty() {
+                    break;
+                }
+            }
+            if t.elapsed() > Duration::from_millis(FINISH_WAIT_MS) {
                 break;
             }
-        }
-        // a late duplicate would show up here
-        if let Ok(Ok(v)) = tokio::time::timeout(Duration::from_millis(3), subscription.recv()).await {
-            exec_order.push(v as i64 - base_index as i64);
+            tokio::time::sleep(Duration::from_micros(300)).await;
         }
         let mut results = vec![];
         for r in receivers {
@@ -626,17 +647,32 @@ pub(crate) fn run(args: &Args) -> i32 {
                 }
                 let failed = judge(sc, &obs, reference);
                 if !failed.is_empty() {
-                    // replay twice: identical observations required
+                    // replay twice. Identical observations: report as judged. Different observations:
+                    // if EVERY execution violates the oracle the scenario is a violation all the same
+                    // (the subject, not the harness, is nondeterministic: reported under the clauses
+                    // common to all executions, else under clause=unstable); if some execution is
+                    // clean the harness cannot decide: machinery failure.
                     let o2 = run_scenario(sc, &base, &scratch, &stats).unwrap_or_else(|e| engine::machinery_failure(&e));
                     let o3 = run_scenario(sc, &base, &scratch, &stats).unwrap_or_else(|e| engine::machinery_failure(&e));
-                    if o2 != obs || o3 != obs {
+                    let (f2, f3) = (judge(sc, &o2, reference), judge(sc, &o3, reference));
+                    if o2 == obs && o3 == obs {
+                        for (clause, what) in failed {
+                            report.violation(&format!("c31|mode={}|clause={clause}", mode_kind(&sc.mode)), &what, sc.to_json());
+                        }
+                    } else if f2.is_empty() || f3.is_empty() {
                         engine::machinery_failure(&format!(
-                            "scenario {} does not reproduce: {:?}/{:?} then {:?}/{:?} then {:?}/{:?}",
+                            "scenario {} does not reproduce and one execution satisfies the oracle: {:?}/{:?} then {:?}/{:?} then {:?}/{:?}",
                             sc.to_json(), obs.exec_order, obs.results, o2.exec_order, o2.results, o3.exec_order, o3.results
                         ));
-                    }
-                    for (clause, what) in failed {
-                        report.violation(&format!("c31|mode={}|clause={clause}", mode_kind(&sc.mode)), &what, sc.to_json());
+                    } else {
+                        let common: Vec<&(String, String)> = failed.iter().filter(|(c, _)| f2.iter().any(|x| x.0 == *c) && f3.iter().any(|x| x.0 == *c)).collect();
+                        let note = format!(" [three executions gave completion orders {:?}, {:?}, {:?}; all violate]", obs.exec_order, o2.exec_order, o3.exec_order);
+                        if common.is_empty() {
+                            report.violation(&format!("c31|mode={}|clause=unstable", mode_kind(&sc.mode)), &format!("every execution violates the oracle, each in a different clause{note}"), sc.to_json());
+                        }
+                        for (clause, what) in common {
+                            report.violation(&format!("c31|mode={}|clause={clause}", mode_kind(&sc.mode)), &format!("{what}{note}"), sc.to_json());
+                        }
                     }
                 }
             }
